@@ -66,7 +66,12 @@ class Connection:
     else:
       self._gfa = gfa
       self._initialize_references_or_undo()
-      self._gfa._register_line(self)
+      try:
+        self._gfa._register_line(self)
+      except Exception:
+        # (the line could not be filed: it leaves no reference behind)
+        self._undo_initialize_references()
+        raise
       return None
 
   def _initialize_references_or_undo(self, placeholder = None):
